@@ -18,6 +18,7 @@ EXPLANATION = ("Exhaustive decision tables of the four add_labor_cost methods by
                "two-element member lists and symbolic cost rates (polynomial equality); effect-closure query for the "
                "charge-to-record window on the enumerated loop paths.")
 ASSUMPTIONS = ["cost_per_time is not changed during a run (no writer exists in simulation-reachable code; checked in R7.4)"]
+EXHAUSTIVE = True  # the deciding tables range over the complete finite domain
 TECHNIQUE = "finite-domain decision tables with symbolic sums (polynomial normal form) + effect-closure window check"
 
 SIBS = [
